@@ -64,6 +64,7 @@ type recE[G any] struct {
 	Total float64 `shp:"name"`
 	Name  string  `shp:"count"`
 }
+
 // recF: column names of eleven bytes (the most a dBase field name holds) that agree in their first ten bytes, next to
 // a ten-byte name that is the common prefix of another pair
 type recF[G any] struct {
